@@ -118,6 +118,17 @@ pub struct Row {
     pub merge: Option<fn(Option<&str>, &Arg) -> String>,
 }
 
+/// What a relation getter hands out is the caller's: editing it in place must not show in the next reading.
+fn spoil(r: Option<Relations>) {
+    if let Some(mut r) = r {
+        if r.entries().count() > 0 {
+            let _ = r.remove_entry(0);
+        } else {
+            r.push(debian_control::lossless::relations::Entry::from(vec![debian_control::lossless::relations::Relation::simple("spoiled")]));
+        }
+    }
+}
+
 fn jl(v: &[String]) -> String {
     // the count is part of the rendering: [""] and [] must not look alike
     format!("{}:{}", v.len(), v.join("|"))
@@ -223,12 +234,12 @@ macro_rules! ostr_row {
 }
 macro_rules! rel_ref_row {
     ($var:ident, $view:literal, $field:literal, $set:ident, $get:ident) => {
-        row!($var, $view, stringify!($set), $field, G::RelCtl, false, |v, a| v.$set(&Relations::parse_relaxed(a.s(), true).0), |v| v.$get().map(|x| x.to_string()), some_s, some_s, raw_id)
+        row!($var, $view, stringify!($set), $field, G::RelCtl, false, |v, a| v.$set(&Relations::parse_relaxed(a.s(), true).0), |v| { spoil(v.$get()); v.$get().map(|x| x.to_string()) }, some_s, some_s, raw_id)
     };
 }
 macro_rules! rel_val_row {
     ($var:ident, $view:literal, $field:literal, $set:ident, $get:ident) => {
-        row!($var, $view, stringify!($set), $field, G::Rel, false, |v, a| v.$set(Relations::parse_relaxed(a.s(), true).0), |v| v.$get().map(|x| x.to_string()), some_s, some_s, raw_id)
+        row!($var, $view, stringify!($set), $field, G::Rel, false, |v, a| v.$set(Relations::parse_relaxed(a.s(), true).0), |v| { spoil(v.$get()); v.$get().map(|x| x.to_string()) }, some_s, some_s, raw_id)
     };
 }
 macro_rules! orel_row {
@@ -244,7 +255,7 @@ macro_rules! orel_row {
                 Arg::Clear => v.$set(None),
                 _ => v.$set(Some(&Relations::parse_relaxed(a.s(), true).0)),
             },
-            |v| v.$get().map(|x| x.to_string()),
+            |v| { spoil(v.$get()); v.$get().map(|x| x.to_string()) },
             some_or_clear,
             some_or_clear,
             raw_id
